@@ -121,6 +121,12 @@ def run(ctx):
         subs = p.of("SUB")
         ok = len(subs) == 1 and subs[0]["m"] == "_build" and subs[0]["target"] == fld and subs[0]["obj"] == digest and subs[0]["stream"] == STREAM and p.retval == digest
     ctx.ob("C14.R3", fi, ok, "Checksum._build always writes hashfunc(bytesfunc(context)) -- the same term _parse compares with -- and returns it", key="build digest")
+    # a detected corruption is reported as ChecksumError for every digest type: nothing on the way to the raise (message formatting
+    # included) can raise a foreign exception first (shared with C06.R3)
+    from . import C06
+    esc6 = C06.escaping(ctx, summariser(ctx))
+    C06.check_foreign(ctx, M.method("Checksum", "_parse"), "Checksum", esc6, rule="C14.R3")
+    C06.check_formats(ctx, "C14.R3")
     ctx.floor("C14.R3", 4)
 
     # ---------------------------------------------------------------- R4
